@@ -40,7 +40,7 @@ static int cnt[2][F_N];
 static int spin_op = -3, spin_count;  // consecutive would-block results inside one API call (virtual-clock engines)
 static int last_fork_op = -2;  // API op during which the library last forked (parent side)
 static pthread_mutex_t child_mu = PTHREAD_MUTEX_INITIALIZER;
-static trec dummy_rec;
+static __thread trec dummy_rec;   // where records go once the trace is full (per thread: several threads may be past the end at once)
 
 // ---------------------------------------------------------------- ledger
 #define MAXFD 65536
